@@ -9,10 +9,12 @@ META = {
                    "collecting and stop-at-first-error mode; the escape sets of Parser.parse, Compiler.compile and GherkinEvents.enum "
                    "must lie within the library's parser errors. Partial operations: regex patterns are constant or re.escape'd and "
                    "replacements are not data; optional AST keys are read only under 'in' tests; constant indexes have a dominating "
-                   "emptiness guard or a grammar justification; next() always has a default; file-system calls on the source text are "
+                   "emptiness guard or a grammar justification; next() always has a default; dictionaries the code builds are read with computed keys only under a membership test; file-system calls on the source text are "
                    "reported. Termination/linearity: every state returned is dispatched, the loop ends at EOF, look-ahead loops stop at "
                    "EOF, no look-ahead restarts inside a run already looked past (constant matcher calls per line); the error cap.",
     "assumptions": ["implicit exceptions of library calls outside the five categories (e.g. MemoryError, RecursionError) are out of scope",
+                    "an assert whose condition the interpreter can neither prove nor refute is taken as stated by its author (listed per site in the obligations)",
+                    "optional parameters added to an entry point after the pinned API (gsa/api_signatures.json) are evaluated at their default",
                     "user-supplied matcher/builder objects obey the same contracts"],
 }
 
